@@ -140,6 +140,15 @@ def run(ctx):
                         src = pr.kids[0].strip()
                         if src.k == "call" and src.a["callee"] == E + "WalkEntry::file_type" and entry_is_arg(src.kids[0]):
                             ok = True
+                    # `match file_info.file_type() { FileType::Directory => .. }`: the same question as a pattern
+                    if pr.k == "discr" and pr.kids:
+                        src = pr.kids[0].strip()
+                        adt = prog.adts.get(E + "FileType")
+                        labs = [l for l in gd.get("labels", []) if isinstance(l, int)]
+                        if adt is not None and src.k == "call" and src.a["callee"] == E + "WalkEntry::file_type" and entry_is_arg(src.kids[0]) and labs and len(labs) == len(gd.get("labels", [])):
+                            names = [adt["variants"][l]["name"] for l in labs if l < len(adt["variants"])]
+                            if names == ["Directory"]:
+                                ok = True
                 po = prim.origin_of_operand(em, t.args[0])
                 ctx.ob("R1", "empty-lists-after-type-test", ok and [c.a["callee"] for c in po.call_nodes()] == [E + "WalkEntry::path"], "read_dir(%s) must be reached only when the entry's follow-aware file_type() is a directory; guards %s" % (po.fmt(), prim.guards_fmt(gs)), fn=em, where=prim.site(em, b), how="dominating guard")
     pfd = prog.fns.get(M + "printf::format_directive")
@@ -340,7 +349,7 @@ def run(ctx):
             l = prim.user_local_behind(xm, calls[0][1].args[0])
             if l is None and calls[0][1].args[0].place is not None:
                 l = calls[0][1].args[0].place.local
-            for bb, o in prim.defs_origins(xm, l):
+            for bb, o in prim.alternatives(xm, l):
                 s = o.strip()
                 gs = prim.dominating_guards(xm, bb)
                 cond = None
